@@ -48,6 +48,28 @@ Fixpoint iread_all_fuel (fuel : nat) (r : reader) (acc : list dict) : result (li
 Definition iread_all (file : bytes) (blocked : bool) : result (list dict * rend) :=
   iread_all_fuel (S (length file)) (rinit file blocked) [].
 
+(* a consumer that keeps the SAME reader after a data error and goes on calling next() until StopIteration:
+     while True:
+         try: d = next(reader)            -> EvRec d
+         except MciIpmDataError as ex: ... -> EvErr ex.record_number ex.binary_context_data
+         except StopIteration: break
+   every call reads at least one byte or stops, so the file length + 1 bounds the number of events *)
+Inductive ievent := EvRec (d : dict) | EvErr (recno : nat) (ctx : bytes).
+Fixpoint ievents_fuel (fuel : nat) (r : reader) (acc : list ievent) : result (list ievent) :=
+  match fuel with
+  | 0 => OutOfFuel
+  | S k =>
+    do x <- inext r;
+    let '(r', o) := x in
+    match o with
+    | IRec d => ievents_fuel k r' (acc ++ [EvRec d])
+    | IStop => Ok acc
+    | IErr n ctx => ievents_fuel k r' (acc ++ [EvErr n ctx])
+    end
+  end.
+Definition ievents (file : bytes) (blocked : bool) : result (list ievent) :=
+  ievents_fuel (S (length file)) (rinit file blocked) [].
+
 (* IpmWriter.write(obj) *)
 Definition iwrite (w : writer) (m : dict) : result writer :=
   do b <- dumps cfg cd false m; Ok (wwrite B w b).
